@@ -1,6 +1,7 @@
 SPECIFICATION MCSpec
 CONSTANTS AggReplace = FALSE
  AggKeepFirst = FALSE
+ EarlyAdd = FALSE
  MCKinds = {"att"}
  MaxStores = 3
  MaxQ = 2
